@@ -40,7 +40,7 @@ HERE = os.path.abspath(__file__)
 MP = refmp.build(b'BND', [(refmp.cd('t'), b'v%d'), (refmp.cd('f', 'n.bin', 'text/plain'), b'data%d')], epilogue=b'\r\n')[0]
 MP_RICH = refmp.build(b'BND', [(refmp.cd('t'), b'v%d'), (refmp.cd('f', 'n.png', 'image/png') + b'\r\nX-Owner: owner-%d', b'data%d')], epilogue=b'\r\n')[0]
 MP = refmp.build(b'BND', [(refmp.cd('t'), b'v%d'), (refmp.cd('f', 'n.bin'), b'data%d')], epilogue=b'\r\n')[0]
-KINDS = ['getq', 'form', 'upload', 'raise', 'crash', '404', 'gen', 'wild', 'chunked', 'badform', 'badchunkj', 'badchunkh', 'notmod', 'rex', 'session', 'dm', 'sfile', '404first']
+KINDS = ['getq', 'form', 'upload', 'raise', 'crash', '404', 'gen', 'wild', 'chunked', 'badform', 'badchunkj', 'badchunkh', 'notmod', 'rex', 'session', 'dm', 'sfile', '404first', 'm405']
 SESSION_SECRET = 'k8'
 
 
@@ -214,6 +214,9 @@ def make_app(om, obs):
         dapp.route('/sfile', 'GET', sfile)
     app.c08_default = dapp
     app.route('/notmod', 'GET', notmod)
+    # two routes with different method sets: a request with another method is told the methods of ITS route
+    app.route('/reports', 'GET', lambda: 'reports')
+    app.route('/jobs', ['POST', 'PUT'], lambda: 'jobs')
     app.route('/chunked', 'POST', chunked)
     app.route('/badform', 'POST', badform)
     app.route('/q', 'GET', getq)
@@ -254,6 +257,8 @@ def environ_for(kind, ident):
         # malformed chunked framing (mapped to the shared 400 object of errors_map); JSON or HTML error report, URLs of different length
         h2 = dict(h, Accept='application/json') if kind == 'badchunkj' else h
         return wsgi.environ('POST', '/chunked', qs='who=' + ident * (3 if kind == 'badchunkh' else 1), body=b'zz\r\n', chunked=True, headers=h2)
+    if kind == 'm405':
+        return wsgi.environ('DELETE', '/reports' if ident == '1' else '/jobs', qs='m=' + ident, headers=h)
     if kind == 'sfile':
         return wsgi.environ('GET', '/sfile', qs='f=' + ident, headers=h)
     if kind == 'notmod':
@@ -354,7 +359,7 @@ def judge(om, kinds, x):
 
 QUICK_PAIRS = [('getq', k) for k in KINDS[:8]] + [('raise', 'crash'), ('form', 'upload'), ('wild', 'wild'), ('404', 'crash'), ('gen', 'gen'),
                ('chunked', 'chunked'), ('badform', 'badform'), ('badchunkj', 'badchunkh'), ('getq', 'notmod'), ('notmod', 'crash'),
-               ('rex', 'rex'), ('session', 'session'), ('upload', 'upload'), ('sfile', 'sfile'), ('404first', '404first')]
+               ('rex', 'rex'), ('session', 'session'), ('upload', 'upload'), ('sfile', 'sfile'), ('404first', '404first'), ('m405', 'm405')]
 
 
 def pairs():
